@@ -9,7 +9,7 @@ from datetime import timedelta
 from . import common, store
 
 common.use_repo()
-VALS = {"v1": "alpha", "v2": "beta", "L1": ["a", "b"], "null": None, "i3": 3}
+VALS = {"v1": "alpha", "v2": "beta", "L1": ["a", "b"], "L0": [], "L2": ["alpha"], "null": None, "i3": 3}
 KEYS = ["k1", "k2", "k3"]
 
 
@@ -41,7 +41,7 @@ class Cg:
         return [self.pev(e) for e in evs]
 
 
-def rand_events(rnd, n, keys=KEYS, vals=("v1", "v2", "L1", "null")):
+def rand_events(rnd, n, keys=KEYS, vals=("v1", "v2", "L1", "null", "L0", "L2", "v1")):
     out = []
     for _ in range(n):
         d = {}
